@@ -412,6 +412,9 @@ class World:
             if base in ("List", "list", "Iterable", "Sequence", "Iterator"):
                 k = self.kind_from_annotation(node.slice)
                 return ("seq", k) if k else None
+            if base in ("Dict", "dict") and isinstance(node.slice, ast.Tuple) and len(node.slice.elts) == 2:
+                k, v = self.kind_from_annotation(node.slice.elts[0]), self.kind_from_annotation(node.slice.elts[1])
+                return ("dict", k, v) if k and v else None
             if base and self.has_cls(base):
                 return ("ref", base)
         return None
